@@ -8,11 +8,20 @@ def run(ctx):
         ctx.stage("c12" + suffix, "sdk/go/keepclient", "keepclient", ["C12/zz_verif_c12_test.go"], "TestVerifC12$",
                   n * mult, HDR.format(imports="model.KC_discover model.C12_model model.C12_run"), seed_offset=off, shard=20,
                   env={"VERIF_STAGE": "c12" + suffix})
-    return standard(ctx, "C12", ["model/C12_run.vo"], stages,
+        # probe order of a read across retry rounds (closed form of getOrHead's loop)
+        nr = {"quick": 240, "thorough": 6000}[ctx.tier]
+        ctx.stage("c12retry" + suffix, "sdk/go/keepclient", "keepclient", ["C12/zz_verif_c12_test.go", "C12/zz_verif_c12retry_test.go"],
+                  "TestVerifC12Retry$", nr * mult, HDR.format(imports="model.C03_model model.C12_retry") + "Notation case := rcase.\n",
+                  seed_offset=off, shard=60, env={"VERIF_STAGE": "c12retry" + suffix},
+                  footer="Definition R := Eval vm_compute in retry_failing cases.\nPrint R.\n"
+                         "Definition NC := Eval vm_compute in List.length cases.\nPrint NC.\n")
+    return standard(ctx, "C12", ["model/C12_run.vo", "model/C12_retry.vo"], stages,
                     rule="random service sets (1-32 services, 27-char/short/long uuids, shared 15-char suffixes), locators with 0-4 "
                          "hints (cluster form, gateway form known/unknown, uuids of local incl. read-only services); half of the cases take "
                          "their roots from 1-3 keep_services lists (1/4 of the services read-only; LoadKeepServicesFromJSON or the "
                          "discoverServices poller with a stub API transport), the others from SetServiceRoots; distinct by hash of the "
-                         "case term; non-trivial = at least 2 local services",
+                         "case term; non-trivial = at least 2 local services; stage c12retry: 1-5 services (+ cluster hint), Retries 0-3, per service "
+                         "an answer sequence (transient^k then definitive / always transient / definitive / transient^k then 200 / any), "
+                         "Get or Ask, non-trivial = at least 2 requests",
                     assumptions=["MD5 is computed by the Gallina implementation lib/Md5.v (validated by this correspondence: every weight comparison depends on it)",
                                  "with equal weights the order is unspecified: such cases are judged by the relation only"])
